@@ -2,6 +2,7 @@
 //!
 //!   c12 record --runs N --out F [--mode direct|prom|mix]   seeded random timelines
 //!   c12 replay --in PROGS --out F                           timelines produced by TLC (SimRecency REPLAY lines)
+//!   c12 race --runs N --out F / c12 race-replay --in PROGS --out F   updates split in two, see `mod race`
 //!
 //! direct: `Registry<Key, GenerationalAtomicStorage>` + `Recency<Key>` driven like the Prometheus recorder does
 //!         (generation read from the handle, then should_store_<kind>), on a `quanta::Clock::mock()`.
@@ -468,9 +469,494 @@ fn parse_program(v: &Value) -> Program {
     Program { prom, mask, timeout, ops }
 }
 
+
+// =====================================================================================================
+// race mode: updaters held INSIDE the inner storage primitive while the controller runs the exporter's
+// steps (specs/Recency/RecencyRace.tla, validated by TraceRecencyRace.tla).
+//
+//   c12 race        --runs N --out F     directed timelines + seeded random legal schedules
+//   c12 race-replay --in PROGS --out F   schedules produced by TLC (SimRecencyRace REPLAY lines)
+//
+// `GatedStorage` is a plain public-API `Storage<Key>`; its primitives stop at two gates when the calling
+// thread is an emitter of the harness: gate 1 before the primitive's effect, gate 2 after it.  Everything
+// `Generational::with_increment` does around the primitive therefore happens either before gate 1 or
+// after gate 2, and the controller can look at the registered handle (generation, value) in between.
+// =====================================================================================================
+mod race {
+    use super::{gen_num, key_of, kind_s};
+    use metrics::{CounterFn, GaugeFn, HistogramFn, Key};
+    use metrics_util::registry::{Generational, GenerationalStorage, Recency, Registry, Storage};
+    use metrics_util::MetricKindMask;
+    use quanta::Clock;
+    use rand::Rng;
+    use serde_json::{json, Value};
+    use std::cell::RefCell;
+    use std::collections::HashMap;
+    use std::sync::atomic::{AtomicU64, Ordering};
+    use std::sync::{Arc, Condvar, Mutex};
+    use std::time::Duration;
+
+    const DEADLINE: Duration = Duration::from_secs(30);
+
+    /// (phase reached by the emitter, phase the controller allows it to leave)
+    pub struct Ctl {
+        m: Mutex<(u8, u8)>,
+        cv: Condvar,
+    }
+    impl Ctl {
+        fn new() -> Arc<Ctl> {
+            Arc::new(Ctl { m: Mutex::new((0, 0)), cv: Condvar::new() })
+        }
+        fn arrive(&self, p: u8) {
+            let mut g = self.m.lock().unwrap();
+            g.0 = p;
+            self.cv.notify_all();
+        }
+        fn wait_allow(&self, p: u8) {
+            let g = self.m.lock().unwrap();
+            let _ = self.cv.wait_timeout_while(g, DEADLINE * 2, |s| s.1 < p).unwrap();
+        }
+        fn allow(&self, p: u8) {
+            let mut g = self.m.lock().unwrap();
+            if g.1 < p {
+                g.1 = p;
+            }
+            self.cv.notify_all();
+        }
+        fn wait_phase(&self, p: u8) -> bool {
+            let g = self.m.lock().unwrap();
+            let (_g, r) = self.cv.wait_timeout_while(g, DEADLINE, |s| s.0 < p).unwrap();
+            !r.timed_out()
+        }
+    }
+    thread_local! { static CUR: RefCell<Option<Arc<Ctl>>> = RefCell::new(None); }
+
+    fn gated(effect: impl FnOnce()) {
+        match CUR.with(|c| c.borrow().clone()) {
+            None => effect(),
+            Some(c) => {
+                c.arrive(1);
+                c.wait_allow(1);
+                effect();
+                c.arrive(2);
+                c.wait_allow(2);
+            }
+        }
+    }
+
+    pub struct GCounter(AtomicU64);
+    pub struct GGauge(AtomicU64);
+    pub struct GHist(AtomicU64);
+    impl CounterFn for GCounter {
+        fn increment(&self, v: u64) {
+            gated(|| {
+                self.0.fetch_add(v, Ordering::SeqCst);
+            })
+        }
+        fn absolute(&self, v: u64) {
+            gated(|| {
+                self.0.fetch_max(v, Ordering::SeqCst);
+            })
+        }
+    }
+    impl GaugeFn for GGauge {
+        fn increment(&self, v: f64) {
+            gated(|| {
+                let _ = self.0.fetch_update(Ordering::SeqCst, Ordering::SeqCst, |b| Some((f64::from_bits(b) + v).to_bits()));
+            })
+        }
+        fn decrement(&self, v: f64) {
+            gated(|| {
+                let _ = self.0.fetch_update(Ordering::SeqCst, Ordering::SeqCst, |b| Some((f64::from_bits(b) - v).to_bits()));
+            })
+        }
+        fn set(&self, v: f64) {
+            gated(|| self.0.store(v.to_bits(), Ordering::SeqCst))
+        }
+    }
+    impl HistogramFn for GHist {
+        fn record(&self, _v: f64) {
+            gated(|| {
+                self.0.fetch_add(1, Ordering::SeqCst);
+            })
+        }
+    }
+    pub struct GatedStorage;
+    impl Storage<Key> for GatedStorage {
+        type Counter = Arc<GCounter>;
+        type Gauge = Arc<GGauge>;
+        type Histogram = Arc<GHist>;
+        fn counter(&self, _: &Key) -> Self::Counter {
+            Arc::new(GCounter(AtomicU64::new(0)))
+        }
+        fn gauge(&self, _: &Key) -> Self::Gauge {
+            Arc::new(GGauge(AtomicU64::new(0f64.to_bits())))
+        }
+        fn histogram(&self, _: &Key) -> Self::Histogram {
+            Arc::new(GHist(AtomicU64::new(0)))
+        }
+    }
+    type RReg = Registry<Key, GenerationalStorage<GatedStorage>>;
+
+    #[derive(Clone)]
+    enum H {
+        C(Generational<Arc<GCounter>>),
+        G(Generational<Arc<GGauge>>),
+        H(Generational<Arc<GHist>>),
+    }
+    impl H {
+        fn gen(&self) -> metrics_util::registry::Generation {
+            match self {
+                H::C(h) => h.get_generation(),
+                H::G(h) => h.get_generation(),
+                H::H(h) => h.get_generation(),
+            }
+        }
+        fn val(&self) -> i64 {
+            match self {
+                H::C(h) => h.get_inner().0.load(Ordering::SeqCst) as i64,
+                H::G(h) => f64::from_bits(h.get_inner().0.load(Ordering::SeqCst)) as i64,
+                H::H(h) => h.get_inner().0.load(Ordering::SeqCst) as i64,
+            }
+        }
+        fn update(&self, d: u64) {
+            match self {
+                H::C(h) => CounterFn::increment(h, d),
+                H::G(h) => GaugeFn::increment(h, d as f64),
+                H::H(h) => {
+                    for _ in 0..d {
+                        h.record(1.5)
+                    }
+                }
+            }
+        }
+    }
+    fn registered(reg: &RReg, kind: char, key: &Key) -> Option<H> {
+        match kind {
+            'c' => reg.get_counter(key).map(H::C),
+            'g' => reg.get_gauge(key).map(H::G),
+            _ => reg.get_histogram(key).map(H::H),
+        }
+    }
+    fn snapshot(reg: &RReg, kind: char, key: &Key) -> Option<H> {
+        // what get_recent_metrics iterates over
+        match kind {
+            'c' => reg.get_counter_handles().remove(key).map(H::C),
+            'g' => reg.get_gauge_handles().remove(key).map(H::G),
+            _ => reg.get_histogram_handles().remove(key).map(H::H),
+        }
+    }
+    fn get_or_create(reg: &RReg, kind: char, key: &Key) -> H {
+        match kind {
+            'c' => H::C(reg.get_or_create_counter(key, |c| c.clone())),
+            'g' => H::G(reg.get_or_create_gauge(key, |c| c.clone())),
+            _ => H::H(reg.get_or_create_histogram(key, |c| c.clone())),
+        }
+    }
+
+    #[derive(Clone, Debug)]
+    pub enum ROp {
+        Tick(u64),
+        UBegin(usize, u64),
+        UStep1(usize),
+        UStep2(usize),
+        OGen,
+        ODecide,
+        OVal,
+    }
+    #[derive(Clone, Debug)]
+    pub struct RProgram {
+        pub kind: char,
+        pub timeout: u64,
+        pub ops: Vec<ROp>,
+    }
+
+    pub struct ROut {
+        pub events: Vec<Value>,
+        pub dropped: bool,
+        pub hang: bool,
+        pub raced: bool, // an observation step ran while an emitter was inside an update
+    }
+
+    pub fn run(p: &RProgram) -> ROut {
+        let reg: Arc<RReg> = Arc::new(Registry::new(GenerationalStorage::new(GatedStorage)));
+        let (clock, mock) = Clock::mock();
+        let rec: Recency<Key> = Recency::new(clock, MetricKindMask::ALL, Some(Duration::from_millis(p.timeout)));
+        let key = key_of(1);
+        let kind = p.kind;
+        let _ = get_or_create(&reg, kind, &key);
+        let mut ev = vec![json!({"p": 0, "ev": "reset", "mode": "race", "kind": kind_s(kind), "timeout": p.timeout})];
+        let mut emitters: HashMap<usize, (Arc<Ctl>, std::thread::JoinHandle<()>)> = HashMap::new();
+        let mut obs: Option<(H, metrics_util::registry::Generation)> = None;
+        let mut out = ROut { events: vec![], dropped: false, hang: false, raced: false };
+        let shows = |reg: &RReg| -> (i64, i64) {
+            match registered(reg, kind, &key) {
+                Some(h) => (gen_num(&h.gen()), h.val()),
+                None => (-2, -2),
+            }
+        };
+        for op in &p.ops {
+            match op {
+                ROp::Tick(d) => {
+                    mock.increment(Duration::from_millis(*d));
+                    ev.push(json!({"p": 0, "ev": "tick", "d": d, "now": (mock.value() / 1_000_000) as i64, "sub": (mock.value() % 1_000_000) as i64}));
+                }
+                ROp::UBegin(u, d) => {
+                    if emitters.contains_key(u) {
+                        continue;
+                    }
+                    let ctl = Ctl::new();
+                    let (c2, r2, k2, d2) = (ctl.clone(), reg.clone(), key.clone(), *d);
+                    let jh = std::thread::spawn(move || {
+                        // like Recorder::register_*: a clone of the handle, used outside any registry lock
+                        let h = get_or_create(&r2, kind, &k2);
+                        CUR.with(|c| *c.borrow_mut() = Some(c2.clone()));
+                        h.update(d2);
+                        CUR.with(|c| *c.borrow_mut() = None);
+                        c2.arrive(3);
+                    });
+                    if !ctl.wait_phase(1) {
+                        out.hang = true;
+                        ev.push(json!({"p": *u, "ev": "hang", "at": "u.begin"}));
+                        break;
+                    }
+                    emitters.insert(*u, (ctl, jh));
+                    let (g, v) = shows(&reg);
+                    ev.push(json!({"p": *u, "ev": "u.begin", "u": u, "d": d, "gen": g, "val": v}));
+                }
+                ROp::UStep1(u) => {
+                    let ok = match emitters.get(u) {
+                        Some((ctl, _)) => {
+                            ctl.allow(1);
+                            ctl.wait_phase(2)
+                        }
+                        None => continue,
+                    };
+                    if !ok {
+                        out.hang = true;
+                        ev.push(json!({"p": *u, "ev": "hang", "at": "u.value"}));
+                        break;
+                    }
+                    let (g, v) = shows(&reg);
+                    ev.push(json!({"p": *u, "ev": "u.value", "u": u, "gen": g, "val": v}));
+                }
+                ROp::UStep2(u) => {
+                    let (ctl, jh) = match emitters.remove(u) {
+                        Some(x) => x,
+                        None => continue,
+                    };
+                    ctl.allow(2);
+                    if !ctl.wait_phase(3) {
+                        out.hang = true;
+                        ev.push(json!({"p": *u, "ev": "hang", "at": "u.end"}));
+                        break;
+                    }
+                    let _ = jh.join();
+                    let (g, v) = shows(&reg);
+                    ev.push(json!({"p": *u, "ev": "u.end", "u": u, "gen": g, "val": v}));
+                }
+                ROp::OGen => match snapshot(&reg, kind, &key) {
+                    Some(h) => {
+                        let g = h.gen();
+                        ev.push(json!({"p": 0, "ev": "o.gen", "gen": gen_num(&g)}));
+                        obs = Some((h, g));
+                        out.raced |= !emitters.is_empty();
+                    }
+                    None => {
+                        ev.push(json!({"p": 0, "ev": "o.missing"}));
+                        break;
+                    }
+                },
+                ROp::ODecide => {
+                    let (h, g) = match &obs {
+                        Some(x) => x.clone(),
+                        None => continue,
+                    };
+                    let keep = match &h {
+                        H::C(_) => rec.should_store_counter(&key, g, &reg),
+                        H::G(_) => rec.should_store_gauge(&key, g, &reg),
+                        H::H(_) => rec.should_store_histogram(&key, g, &reg),
+                    };
+                    let present = registered(&reg, kind, &key).is_some();
+                    ev.push(json!({"p": 0, "ev": "o.decide", "keep": keep, "present": present}));
+                    out.raced |= !emitters.is_empty();
+                    if !keep {
+                        out.dropped = true;
+                        break; // the model's run ends with the drop
+                    }
+                }
+                ROp::OVal => {
+                    if let Some((h, _)) = obs.take() {
+                        ev.push(json!({"p": 0, "ev": "o.val", "val": h.val()}));
+                        out.raced |= !emitters.is_empty();
+                    }
+                }
+            }
+        }
+        // let every emitter still inside an update finish (not part of the validated run)
+        for (_, (ctl, jh)) in emitters.drain() {
+            ctl.allow(2);
+            if ctl.wait_phase(3) {
+                let _ = jh.join();
+            }
+        }
+        out.events = ev;
+        out
+    }
+
+    /// The coordinator's timeline and its variants: update + observation #0; an emitter held inside the
+    /// primitive (before / after its effect) around the steps of observation #1; released; advance by
+    /// timeout-1 / timeout / timeout+1; observation #2.
+    pub fn directed() -> Vec<RProgram> {
+        use ROp::*;
+        let mut v = vec![];
+        let o = || vec![OGen, ODecide, OVal];
+        for kind in ['c', 'g', 'h'] {
+            for t in [2u64, 3] {
+                for adv in [t - 1, t, t + 1] {
+                    let d = if kind == 'h' { 1 } else { 2 };
+                    let races: Vec<Vec<ROp>> = vec![
+                        // held before the effect during the whole observation
+                        [vec![UBegin(1, d)], o(), vec![UStep1(1), UStep2(1)]].concat(),
+                        // held after the effect during the whole observation
+                        [vec![UBegin(1, d), UStep1(1)], o(), vec![UStep2(1)]].concat(),
+                        // enters after the generation was read, returns before the decision
+                        vec![OGen, UBegin(1, d), UStep1(1), UStep2(1), ODecide, OVal],
+                        // enters after the generation was read, still inside at the decision, effect before the value read
+                        vec![OGen, UBegin(1, d), ODecide, UStep1(1), OVal, UStep2(1)],
+                        // inside the primitive across the decision only
+                        vec![OGen, ODecide, UBegin(1, d), UStep1(1), OVal, UStep2(1)],
+                        // two emitters, one held before and one after the effect
+                        [vec![UBegin(1, d), UBegin(2, d), UStep1(2)], o(), vec![UStep2(2), UStep1(1), UStep2(1)]].concat(),
+                    ];
+                    for r in races {
+                        let ops = [vec![UBegin(1, d), UStep1(1), UStep2(1)], o(), vec![Tick(1)], r, vec![Tick(adv)], o(), vec![Tick(t + 1)], o()].concat();
+                        v.push(RProgram { kind, timeout: t, ops });
+                    }
+                }
+            }
+        }
+        v
+    }
+
+    /// A random legal schedule of the split model (the run itself stops at a drop).
+    pub fn random(rng: &mut rand::rngs::StdRng) -> RProgram {
+        let kinds = ['c', 'g', 'h'];
+        let kind = kinds[rng.random_range(0..3)];
+        let t = rng.random_range(1..=3u64);
+        let len = rng.random_range(8..40usize);
+        let mut upc = [0u8; 3]; // index 1..2
+        let mut opc = 0u8;
+        let mut ops = vec![];
+        while ops.len() < len {
+            let x = rng.random_range(0..100);
+            if x < 18 {
+                let ds = [1, t.saturating_sub(1).max(1), t, t + 1, t + 1];
+                ops.push(ROp::Tick(ds[rng.random_range(0..ds.len())]));
+            } else if x < 60 {
+                let u = rng.random_range(1..=2usize);
+                match upc[u] {
+                    0 => {
+                        ops.push(ROp::UBegin(u, if kind == 'h' { 1 } else { rng.random_range(1..=2u64) }));
+                        upc[u] = 1;
+                    }
+                    1 => {
+                        ops.push(ROp::UStep1(u));
+                        upc[u] = 2;
+                    }
+                    _ => {
+                        ops.push(ROp::UStep2(u));
+                        upc[u] = 0;
+                    }
+                }
+            } else {
+                match opc {
+                    0 => {
+                        ops.push(ROp::OGen);
+                        opc = 1;
+                    }
+                    1 => {
+                        ops.push(ROp::ODecide);
+                        opc = 2;
+                    }
+                    _ => {
+                        ops.push(ROp::OVal);
+                        opc = 0;
+                    }
+                }
+            }
+        }
+        RProgram { kind, timeout: t, ops }
+    }
+
+    pub fn parse(v: &Value, idx: usize) -> RProgram {
+        let kinds = ['c', 'g', 'h'];
+        let kind = v["kind"].as_str().and_then(|s| s.chars().next()).unwrap_or(kinds[idx % 3]);
+        let mut ops = vec![];
+        for o in v["ops"].as_array().cloned().unwrap_or_default() {
+            let u = o[1].as_u64().unwrap_or(0) as usize;
+            ops.push(match o[0].as_str().unwrap_or("") {
+                "tick" => ROp::Tick(o[1].as_u64().unwrap_or(0)),
+                "ubegin" => ROp::UBegin(u, o[2].as_u64().unwrap_or(1)),
+                "ustep1" => ROp::UStep1(u),
+                "ustep2" => ROp::UStep2(u),
+                "ogen" => ROp::OGen,
+                "odecide" => ROp::ODecide,
+                _ => ROp::OVal,
+            });
+        }
+        RProgram { kind, timeout: v["timeout"].as_u64().unwrap_or(2), ops }
+    }
+}
+
+fn main_race(mode: &str, args: &vh::Args) {
+    let seed = vh::seed(1);
+    let mut rng = vh::rng(seed);
+    let out = args.get("out").unwrap_or("c12_race.ndjson").to_string();
+    let mut w = Writer::create(&out);
+    let mut progs: Vec<race::RProgram> = vec![];
+    if mode == "race" {
+        progs.extend(race::directed());
+        let n: usize = args.num("runs", 100);
+        for _ in 0..n {
+            progs.push(race::random(&mut rng));
+        }
+    } else {
+        let inp = args.get("in").expect("--in");
+        let text = std::fs::read_to_string(inp).unwrap();
+        for (i, line) in text.lines().filter(|l| !l.trim().is_empty()).enumerate() {
+            let v: Value = serde_json::from_str(line).unwrap();
+            progs.push(race::parse(&v, i));
+        }
+    }
+    let (mut drops, mut hangs, mut raced, mut lines) = (0usize, 0usize, 0usize, 0usize);
+    let mut distinct = std::collections::HashSet::new();
+    for p in &progs {
+        let r = race::run(p);
+        drops += r.dropped as usize;
+        hangs += r.hang as usize;
+        raced += r.raced as usize;
+        distinct.insert(r.events.iter().map(|e| e.to_string()).collect::<Vec<_>>().join("\n"));
+        for e in &r.events {
+            w.put(e);
+        }
+        lines += r.events.len();
+        if r.hang {
+            break; // threads are stuck inside the code under test
+        }
+    }
+    w.finish();
+    println!("{}", json!({"mode": mode, "seed": seed, "runs": progs.len(), "distinct_schedules": distinct.len(),
+        "runs_with_overlap": raced, "drops": drops, "hangs": hangs, "lines": lines}));
+}
+
 fn main() {
     let args = vh::Args::parse();
     let mode = args.pos.get(0).map(|s| s.as_str()).unwrap_or("record");
+    if mode == "race" || mode == "race-replay" {
+        main_race(mode, &args);
+        return;
+    }
     let seed = vh::seed(1);
     let mut rng = vh::rng(seed);
     let out = args.get("out").unwrap_or("c12.ndjson").to_string();
